@@ -74,3 +74,129 @@ def listing_lines(data):
     if not data.endswith(b'\r\n'):
         return None
     return data[:-2].split(b'\r\n')
+
+
+def bsave_block(s, addr, length, name=b'MEMBLK.BIN'):
+    """
+    Bytes [addr, addr+length) of the data segment, read with BSAVE (which reads the same
+    byte-wise memory interface as PEEK, in one statement). -> bytes or raises PeekFailed.
+    """
+    length = max(1, min(length, 65535 - addr))
+    o = s.execute(b'DEF SEG:BSAVE "%s",%d,%d' % (name, addr, length))
+    if o.kind != 'ok' or o.errors:
+        raise PeekFailed('BSAVE: %r' % o)
+    path = os.path.join(s.sandbox.z, name.decode())
+    with open(path, 'rb') as f:
+        data = f.read()
+    os.remove(path)
+    if len(data) < 7 + length or data[0] != 0xfd:
+        raise PeekFailed('BSAVE file malformed: %r' % data[:16])
+    return data[7:7 + length]
+
+
+def program_start(s):
+    return peek(s, 0x30) + 256 * peek(s, 0x31)
+
+
+def walk_block(block, base):
+    """
+    Follow the line links inside `block` (memory image starting at address `base`, which is the
+    address of the first line's link field). -> (records [(addr, link, num, body)], problems).
+    """
+    recs, problems = [], []
+    addr = base
+    while True:
+        off = addr - base
+        if off < 0 or off + 2 > len(block):
+            problems.append('record address %d outside the expected program area' % addr)
+            break
+        link = block[off] | (block[off + 1] << 8)
+        if link == 0:
+            break
+        if off + 4 > len(block):
+            problems.append('record at %d truncated' % addr)
+            break
+        num = block[off + 2] | (block[off + 3] << 8)
+        if link < addr + 5:
+            problems.append('line %d at %d: link %d does not point forward' % (num, addr, link))
+            break
+        if link - base > len(block):
+            problems.append('line %d at %d: link %d beyond the expected program area' % (
+                num, addr, link))
+            break
+        body = bytes(block[off + 4:link - base - 1])
+        if block[link - base - 1] != 0:
+            problems.append('line %d at %d: byte before link target %d is %d, not NUL' % (
+                num, addr, link, block[link - base - 1]))
+        recs.append((addr, link, num, body))
+        addr = link
+        if len(recs) > 70000:
+            problems.append('walk does not terminate')
+            break
+    return recs, problems
+
+
+# ---------------------------------------------------------------------------------------------
+# reference model of RENUM (from the manual's RENUM entry), shared by C13 and C14
+
+def renum_plan(line_numbers, new, old, inc):
+    """
+    -> (mapping old->new, None) if RENUM new,old,inc is accepted for a program with these line
+    numbers, or (None, error code) if it must be rejected with the program unchanged.
+    """
+    new = 10 if new is None else new
+    old_v = 0 if old is None else old
+    inc = 10 if inc is None else inc
+    if inc == 0:
+        return None, 5
+    below = [n for n in line_numbers if n < old_v]
+    if below and new <= max(below):
+        return None, 5
+    mapping = {}
+    cur = new
+    for n in sorted(x for x in line_numbers if x >= old_v):
+        if cur > 65529:
+            return None, 5
+        mapping[n] = cur
+        cur += inc
+    return mapping, None
+
+
+def renum_args(new, old, inc):
+    """Argument text of a RENUM statement for optional new, old, increment."""
+    args = b''
+    if new is not None:
+        args += b' %d' % new
+    if old is not None or inc is not None:
+        args += b' ,' if new is None else b','
+        if old is not None:
+            args += b'%d' % old
+        if inc is not None:
+            args += b',%d' % inc
+    return args
+
+
+def renum_atoms(atoms, mapping, missing=None):
+    """
+    Apply a RENUM mapping to every jump atom (except the 0 of ON ERROR GOTO 0).
+    If `missing` is a list, (number) of every reference that names no line of `existing`
+    (missing[0] must be the set of existing old numbers) is appended to it.
+    """
+    out = []
+    words = []
+    for a in atoms:
+        if a[0] == 'j':
+            n = a[1]
+            if n == 0 and words[-2:] == ['ERROR', 'GOTO']:
+                out.append(a)
+            else:
+                out.append(['j', mapping.get(n, n)])
+                if missing is not None and n not in missing[0]:
+                    missing.append(n)
+            continue
+        if a[0] == 'k':
+            words.append(a[1])
+        elif a[0] != 'sp':
+            words.append(None)
+        out.append(a)
+    return out
